@@ -31,7 +31,7 @@ def _one(job):
         for text in (rpatch, spatch):
             fp = os.path.join(tmp, "p.diff")
             open(fp, "w", encoding="utf-8").write(filtered(text))
-            r = subprocess.run(["patch", "-p1", "-s", "-F2", "-d", tmp, "-i", fp], capture_output=True, text=True)
+            r = subprocess.run(["patch", "-p1", "-s", "-F1", "-d", tmp, "-i", fp], capture_output=True, text=True)
             if r.returncode != 0:
                 return (rname, sname, "no-apply", "")
         ov = {}
